@@ -20,4 +20,7 @@ def obligations(tier):
     obls += [e2e_obl(c, ('sym', 'gain'), tier) for c in align_cfgs(tier)]
     obls += half_band_obls(tier, 'pass')
     obls += kern_imp_set(tier)      # every tap of the half-band tables is applied, to the right sample (portable and SSE kernels)
+    obls += [coefs_cont_obl(o, c) for o in (1, 2, 3) for c in (0, 3)]      # interpolated-coefficient stages: the coefficient polynomials run through the prototype samples
+    if tier == 'thorough':
+        obls += [coefs_cont_obl(o, c) for o in (1, 2, 3) for c in (1, 2)]
     return obls
